@@ -50,3 +50,17 @@ Proof.
   - constructor.
   - now rewrite E, Hcat, crlf_lines_join.
 Qed.
+
+(* server mode: the same for the messages a client sends on socket k, whatever
+   the other sockets receive in between *)
+Theorem server_message_stream (k : nat) (evs : list (nat * list N)) (ms : list msg) (bs : list (list N)) :
+  Forall2 (fun m b => to_str m = Some b) ms bs ->
+  concat (proj k evs) = concat bs ->
+  exists bodies, projl k (fst (run_srv empty_bufs evs)) = bodies /\
+                 snd (run_srv empty_bufs evs) k = [] /\
+                 Forall2 (fun b body => b = body ++ [13; 10] /\ clean body) bs bodies.
+Proof.
+  intros H E. destruct (message_stream ms bs (proj k evs) H E) as (bodies & R & HB).
+  exists bodies. pose proof (server_isolation k evs) as S. rewrite R in S.
+  injection S as S1 S2. split; [exact S1|split; [exact S2|exact HB]].
+Qed.
